@@ -102,7 +102,7 @@ func propC12(c *ctx) error {
 			e := base
 			failKind := "none"
 			if pos >= 0 {
-				failKind = r.pick([]string{"ferr", "nope", "fpanic", "wrongkind", "method"})
+				failKind = r.pick([]string{"ferr", "nope", "fpanic", "wrongkind", "method", "nil"})
 				var repl *Ex
 				switch failKind {
 				case "ferr", "fpanic":
@@ -111,6 +111,9 @@ func propC12(c *ctx) error {
 					repl = &Ex{Op: "call", Text: "st.Fail"}
 				case "nope":
 					repl = &Ex{Op: "var", Text: "nope"}
+				case "nil":
+					// evaluates SUCCESSFULLY to untyped nil: a failure only where the operator needs a bool / number
+					repl = &Ex{Op: "var", Text: r.pick([]string{"nil", "vnil"}), Ty: 'n'}
 				default:
 					repl = &Ex{Op: "un", Text: "-", Kids: []*Ex{{Op: "lit-str", Text: `"w"`, Ty: 's'}}}
 				}
